@@ -475,6 +475,16 @@ def rule_lfda_scatter(repo, rep):
     rep.unknown(R, 'LFDA.fit', site(f), 'class loop not recognised')
     return
   loop = loops[0]
+  skips = [b for b in ast.walk(loop) if isinstance(b, (ast.Continue,
+                                                        ast.Break))]
+  if skips:
+    rep.refuted(R, 'LFDA.fit:every-class-contributes', site(f, skips[0]),
+                'the class loop skips classes under %s: their points still '
+                'count in s s^T / n, so the scatters are no longer the '
+                'pairwise-defined ones' % astutil.path_condition(loop,
+                                                                 skips[0]))
+  else:
+    rep.derived(R, 'LFDA.fit:every-class-contributes', site(f, loop))
   scalars = {'n': 'n', 'nc': 'nc'}
   # n and nc must be the sample counts
   defs = {}
